@@ -1009,4 +1009,29 @@ PROPS["C09"] = {
                 "the interpreter hash seed are outside any Lean model and are covered by execution (hash-seed sweep)"],
 }
 
+# source-text and symbolic-execution tie modules (hand-written statements about regenerated Gen files, rebuilt every run)
+EXTRA_MODULES = {
+    "C01": ["EpgVerif.Tie.ApplySites"],
+    "C02": ["EpgVerif.Tie.DiffSites", "EpgVerif.Props.C02Run"],
+    "C03": ["EpgVerif.Tie.DiffSites"],
+    "C04": ["EpgVerif.Tie.ShiftSites"],
+    "C05": ["EpgVerif.Tie.PhysSites"],
+    "C06": ["EpgVerif.Tie.PhysSites", "EpgVerif.Tie.Exchange"],
+    "C07": ["EpgVerif.Tie.ApplySites"],
+    "C08": ["EpgVerif.Tie.ApplySites"],
+    "C09": ["EpgVerif.Tie.PuritySites"],
+    "C10": ["EpgVerif.Tie.ApplySites"],
+    "C11": ["EpgVerif.Tie.SeqSites", "EpgVerif.Props.C11Run"],
+    "C12": ["EpgVerif.Tie.SimSites", "EpgVerif.Tie.Modify"],
+    "C13": ["EpgVerif.Tie.ShiftSites"],
+    "C14": ["EpgVerif.Tie.ShiftSites"],
+    "C15": ["EpgVerif.Tie.PhysSites"],
+    "C16": ["EpgVerif.Tie.CollSites"],
+    "C18": ["EpgVerif.Tie.PhysSites", "EpgVerif.Tie.RFPulse"],
+    "C19": ["EpgVerif.Tie.DiffSites"],
+    "C20": ["EpgVerif.Tie.GuardSites"],
+}
+for _p, _mods in EXTRA_MODULES.items():
+    PROPS[_p]["lean_modules"] = list(PROPS[_p]["lean_modules"]) + [m for m in _mods if m not in PROPS[_p]["lean_modules"]]
+
 NOT_CLAIMED = {}
